@@ -372,8 +372,14 @@ func vfKinds(msg *ClientComMessage) (string, string, string) {
 
 // facts about the state before the input, computed independently of the code under test, for the
 // model correspondence: v=ver set, u=logged in, r=root, a=session attached to the addressed topic,
-// l=topic loaded in the hub, s=live subscription row of the user exists in the store, d=row incl. soft-deleted
-func vfPre(s *Session, topic string) string {
+// l=topic loaded in the hub, s=live subscription row of the user exists in the store, d=row incl. soft-deleted;
+// then what the in-topic default-access site reads (coq/Sys/PanicSites.v this_user_sub / another_user_sub):
+// c=category of the loaded topic (0 me 1 fnd 2 p2p 3 grp 4 sys, 9 not loaded; t.cat is immutable after init),
+// e=the session's user has a live subscription, x=0, j=its modeWant has J, h=(modeGiven & modeWant).IsSharer()
+// (taken from the stored row, which the topic's perUser cache mirrors: the cache itself is owned by the topic
+// goroutine and is not read from here); t=set.sub.user of the request (0 absent, 1 unparsable, 2 another user,
+// 3 the session's own user), f=that user has no live subscription
+func vfPre(s *Session, topic string, subUser string) string {
 	b := func(x bool) string {
 		if x {
 			return "1"
@@ -413,7 +419,66 @@ func vfPre(s *Session, topic string) string {
 			}
 		}
 	}
-	return "v" + b(s.ver != 0) + "u" + b(!s.uid.IsZero()) + "r" + b(s.authLvl == auth.LevelRoot) + "a" + b(att) + "l" + b(loaded) + "s" + b(srow) + "d" + b(drow)
+	cat, pe, px, pj, ph, tk, tf := "9", false, false, false, false, "0", true
+	var target types.Uid
+	if subUser != "" {
+		target = types.ParseUserId(subUser)
+		switch {
+		case target.IsZero():
+			tk = "1"
+		case target == s.uid:
+			tk = "3"
+		default:
+			tk = "2"
+		}
+	}
+	if name != "" {
+		if t := globals.hub.topicGet(name); t != nil {
+			switch t.cat {
+			case types.TopicCatMe:
+				cat = "0"
+			case types.TopicCatFnd:
+				cat = "1"
+			case types.TopicCatP2P:
+				cat = "2"
+			case types.TopicCatGrp:
+				cat = "3"
+			case types.TopicCatSys:
+				cat = "4"
+			}
+			rowName := name
+			if strings.HasPrefix(topic, "chn") {
+				rowName = topic
+			}
+			if !s.uid.IsZero() {
+				if sub, err := store.Subs.Get(rowName, s.uid, false); err == nil && sub != nil {
+					pe, pj, ph = true, sub.ModeWant.IsJoiner(), (sub.ModeGiven & sub.ModeWant).IsSharer()
+				}
+			}
+			if !target.IsZero() {
+				if sub, err := store.Subs.Get(name, target, false); err == nil && sub != nil {
+					tf = false
+				}
+			}
+		}
+	}
+	return "v" + b(s.ver != 0) + "u" + b(!s.uid.IsZero()) + "r" + b(s.authLvl == auth.LevelRoot) + "a" + b(att) + "l" + b(loaded) + "s" + b(srow) + "d" + b(drow) +
+		"c" + cat + "e" + b(pe) + "x" + b(px) + "j" + b(pj) + "h" + b(ph) + "t" + tk + "f" + b(tf)
+}
+
+// set.sub.user of a {set} / of the "set" section of a {sub}
+func vfSubUser(raw []byte) string {
+	var msg ClientComMessage
+	if json.Unmarshal(raw, &msg) != nil {
+		return ""
+	}
+	if msg.Set != nil && msg.Set.Sub != nil {
+		return msg.Set.Sub.User
+	}
+	if msg.Sub != nil && msg.Sub.Set != nil && msg.Sub.Set.Sub != nil {
+		return msg.Sub.Set.Sub.User
+	}
+	return ""
 }
 
 func vfHexS(s string) string { return vHex([]byte(s)) }
@@ -623,7 +688,9 @@ func TestVerifFuzz(t *testing.T) {
 			pre := ""
 			if w[0] == "in" {
 				dec, id, topic = vfDecode(raw)
-				pre = vfPre(vs.s, topic)
+				pre = vfPre(vs.s, topic, vfSubUser(raw))
+				// kept if the process dies in a hub / topic goroutine while handling the input
+				emit("pre %d %s dec=%s id=%s topic=%s st=%s", n, w[1], dec, vfHexS(id), vfHexS(topic), pre)
 				r = vfGuard(func() { vs.s.dispatchRaw(raw) })
 			} else {
 				var pm pbx.ClientMsg
@@ -635,11 +702,11 @@ func TestVerifFuzz(t *testing.T) {
 				r = vfGuard(func() {
 					m := pbCliDeserialize(&pm)
 					dec, id, topic = vfKinds(m)
-					pre = vfPre(vs.s, topic)
+					pre = vfPre(vs.s, topic, "")
 					vs.s.dispatch(m)
 				})
 				if pre == "" {
-					pre = vfPre(vs.s, "")
+					pre = vfPre(vs.s, "", "")
 				}
 				if dec == "" {
 					dec = "pbpanic"
